@@ -317,6 +317,20 @@ def run_midpoints(col):
                     "mesh/_convert.py %s: got %s, expected %s" % (fname, sorted(map(sorted, got_sets)), sorted(map(sorted, want))))
             col.add("C16.O4", "%s %s centroids" % (fname, ct_), "each inserted point is the centroid of all vertices of its %s (symbolic coordinates)" % kind[:-1], not bad_centroid, "points %s" % bad_centroid)
             col.add("C16.O4", "%s %s numbering" % (fname, ct_), "the cell refers to each new point exactly once", sorted(cn.tolist()) == list(range(pn.shape[0])), str(cn.tolist()))
+        # integer-typed point arrays (hand-written meshes, voxel grids): the inserted points are still the centroids
+        ipts = np.array([[int(v) for v in row] for row in P0], dtype=int)
+
+        def chk_int(ipts=ipts):
+            f = it.get(base + "add_midpoints_edges")
+            pn, cn, tn = it.call(f, [ipts, np.arange(n).reshape(1, n), ct], {})
+            pn = cvals(npmodel.to_obj(np.asarray(pn)))
+            cn = npmodel.to_int_array(np.asarray(cn))[0].tolist()
+            corner = pn[:n] == [[Fraction(v) for v in row] for row in ipts.tolist()]
+            edges = expected_sets(P0, "edges")
+            mids = {tuple(sum((Fraction(int(ipts[a, i])) for a in e), Fraction(0)) / len(e) for i in range(d)) for e in edges}
+            got = {tuple(p) for p in pn[n:]}
+            return corner and got == mids and len(pn) == n + len(edges), "mesh/_convert.py add_midpoints_edges: inserted points %s" % sorted(got)[:4]
+        col.check("C16.O4", "add_midpoints_edges %s integer points" % ct, "with an integer-typed point array the inserted points are the edge centroids (no truncation to the input's integer type)", chk_int)
         # ordering against the target element classes on the reference cell
         conv = it.get(base + "convert")
         targets = {"triangle": [("QuadraticTriangle", {}, "triangle6")], "tetra": [("QuadraticTetra", {}, "tetra10")],
@@ -404,16 +418,33 @@ class MeshStub:
 
 def run_bookkeeping(col):
     it = new_interp()
-    A = MeshStub(symarray("A", (3, 2)), np.array([[0, 1, 2]]), "triangle")
+    A = MeshStub(symarray("A", (4, 2)), np.array([[0, 1, 2]]), "triangle")  # its last point is not referenced by a cell
     B = MeshStub(symarray("B", (4, 2)), np.array([[0, 1, 3], [1, 2, 3]]), "triangle")
     C = MeshStub(symarray("C", (3, 2)), np.array([[2, 1, 0]]), "triangle")
     m = it.call(it.get("felupe.mesh._tools:concatenate"), [[A, B, C]], {})
     cells = npmodel.to_int_array(np.asarray(m.cells)).tolist()
     pts = npmodel.to_obj(m.points)
-    okk = cells == [[0, 1, 2], [3, 4, 6], [4, 5, 6], [9, 8, 7]] and pts.shape == (10, 2) and is_zero(P(pts[3, 0]) - B.points[0, 0]) and is_zero(P(pts[7, 1]) - C.points[0, 1])
-    col.add("C16.O7", "concatenate", "points are stacked and each mesh's cells are shifted by the cumulative number of points of the meshes before it", okk, str(cells))
+    okk = cells == [[0, 1, 2], [4, 5, 7], [5, 6, 7], [10, 9, 8]] and pts.shape == (11, 2) and is_zero(P(pts[4, 0]) - B.points[0, 0]) and is_zero(P(pts[8, 1]) - C.points[0, 1])
+    col.add("C16.O7", "concatenate", "points are stacked and each mesh's cells are shifted by the cumulative number of *points* of the meshes before it (also when a mesh has points no cell refers to)", okk, str(cells))
     m = it.call(it.get("felupe.mesh._tools:stack"), [[B, MeshStub(B.points, np.array([[0, 2, 3]]), "triangle")]], {})
     col.add("C16.O7", "stack", "stack keeps the first mesh's points and stacks the cells unshifted", m.points is B.points and npmodel.to_int_array(np.asarray(m.cells)).tolist() == [[0, 1, 3], [1, 2, 3], [0, 2, 3]])
+    # meshes taken out of a MeshContainer (they share its point array) are concatenated: every cell corner keeps its coordinates
+    MeshC = it.get("felupe.mesh._mesh:Mesh")
+    MC = it.get("felupe.mesh._container:MeshContainer")
+    Fd = npmodel.DType("float")
+    qa = it.call(MeshC, [npmodel.array([[0, 0], [1, 0], [1, 1], [0, 1]], dtype=Fd), np.array([[0, 1, 2, 3]]), "quad"], {})
+    qb = it.call(MeshC, [npmodel.array([[1, 0], [2, 0], [2, 1], [1, 1]], dtype=Fd), np.array([[0, 1, 2, 3]]), "quad"], {})
+
+    def chk_container():
+        mc = it.call(MC, [[qa, qb]], {})
+        parts = it.getattr(mc, "meshes")
+        j = it.call(it.get("felupe.mesh._tools:concatenate"), [list(parts)], {})
+        jp = cvals(npmodel.to_obj(it.getattr(j, "points")))
+        jc = npmodel.to_int_array(np.asarray(it.getattr(j, "cells")))
+        want = [cvals(npmodel.to_obj(it.getattr(qa, "points"))), cvals(npmodel.to_obj(it.getattr(qb, "points")))]
+        bad = [(c, k) for c in range(2) for k in range(4) if jc[c, k] >= len(jp) or jp[jc[c, k]] != want[c][k]]
+        return not bad, "mesh/_container.py MeshContainer.append / mesh/_tools.py concatenate: moved corners (cell, node) %s" % bad
+    col.check("C16.O7", "concatenate meshes of a MeshContainer", "meshes handed out by a MeshContainer can be concatenated: no cell corner moves (their point counts describe the shared point array)", chk_container)
     # merge_duplicate_points: concrete coordinates with two coincident points
     F = Fraction
     P_ = npmodel.array([[0, 0], [1, 0], [1, 1], [1, 0], [2, 0], [2, 1]], dtype=npmodel.DType("float"))
